@@ -18,9 +18,14 @@ def run(ctx):
     hist = []
     order = list(range(len(base)))
     rng.shuffle(order)
+    n_reg = 0
     for i in order:
         c = base[i]
-        if rng.random() < 0.08:
+        # at most a dozen registrations per history: the registries are append-only and the harness addresses a shipped function by
+        # its LAST index, so hundreds of registrations would push that index beyond the 8-bit arrays of the engine (a capacity
+        # question, C19, not a history dependence) — this produced a false alarm in the thorough tier once
+        if rng.random() < 0.08 and n_reg < 12:
+            n_reg += 1
             hist.append(({"op": "register", "problem": c["problem"], "cfg": c["cfg"]}, None))
         hist.append((c, i))
         if c["op"] == "solve" and c.get("limit") is None and rng.random() < 0.3:
@@ -81,6 +86,63 @@ def run(ctx):
         if a[0] in ("ok", "err") and b[0] in ("ok", "err") and list(a[1:]) != list(b[1:]):
             viol.append({"kind": "history", "op": "split_solve", "problem": c["problem"], "cfg": c["cfg"], "k": c["k"], "v": c["v"],
                          "detail": f"Problem.split gives different sub-problems when a solver was built on the object before: {str(b[1])[:150]} vs {str(a[1])[:150]} on a fresh object"})
+    # a custom propagator reusing a shipped compute function with its own triggers, with and without an earlier registration of
+    # another variant of the same compute function (interpreted mode: a Python trigger function needs no compilation)
+    cv = [dict(c, op="custom_variant", limit=None) for c in base
+          if c["op"] == "solve" and any(a == "affine_leq" for _, a, _ in c["problem"]["propagators"])][: (30 if ctx["tier"] == "quick" else 600)]
+    cv_fresh = ce.run_impl([dict(c, prior=False) for c in cv], jit=False, tag="C15v")
+    cv_used = ce.run_impl([dict(c, prior=True) for c in cv], jit=False, tag="C15w")
+    for c, a, b in zip(cv, cv_fresh, cv_used):
+        report.cov["evaluations"] += 2
+        report.count("history_op", "custom_variant_registration")
+        if a[0] == "ok" and b[0] == "ok" and list(a[1:3]) != list(b[1:3]):
+            viol.append({"kind": "history", "op": "custom_variant", "problem": c["problem"], "cfg": c["cfg"],
+                         "detail": f"a custom propagator (shipped compute function + own triggers) behaves differently after another variant of the same compute function was registered: statistics {b[2]} vs {a[2]}"})
+    # one filtering call, interpreted versus compiled, for every algorithm (small scope sample + random + wide magnitudes)
+    import json
+    import os
+    import subprocess
+    import sys
+
+    import gen
+    import props_sweep
+
+    per_alg = 120 if ctx["tier"] == "quick" else 3000
+    calls = []
+    for alg in gen.ALGS:
+        scope = list(gen.prop_scope(alg))
+        cs = rng.sample(scope, min(per_alg, len(scope))) + [gen.prop_random(alg, rng) for _ in range(per_alg // 2)]
+        cs += [w for w in (gen.prop_wide(alg, rng) for _ in range(per_alg // 4)) if w is not None]
+        for ps, b in cs:
+            if props_sweep.known_finding(alg, ps, b) is None:
+                calls.append([alg, list(ps), [list(d) for d in b]])
+    work = os.path.join(nv.VERIF, ".cache", "work")
+    os.makedirs(work, exist_ok=True)
+    basef = os.path.join(work, f"C15c-{os.getpid()}")
+    json.dump(calls, open(basef + ".cases", "w"))
+    jres = None
+    try:
+        rr = subprocess.run([sys.executable, os.path.join(os.path.dirname(os.path.abspath(nv.__file__)), "jit_calls.py"), basef + ".cases", basef + ".out"],
+                            capture_output=True, text=True, timeout=1500)
+        if rr.returncode == 0 and os.path.exists(basef + ".out"):
+            jres = json.load(open(basef + ".out"))
+    except subprocess.TimeoutExpired:
+        pass
+    for ext in (".cases", ".out"):
+        if os.path.exists(basef + ext):
+            os.remove(basef + ext)
+    if jres is None:
+        report.count("jit_call_worker_failed", None, 1)
+    else:
+        for (alg, ps, b), (stj, outj) in zip(calls, jres):
+            sti, outi = nv.impl_prop(alg, ps, [tuple(d) for d in b])
+            report.cov["evaluations"] += 2
+            report.count("single_calls_both_modes", alg)
+            if sti == "oob" or stj == "oob" or sti == "hang" or stj == "hang":
+                continue  # C16 / C04 territory: interpreted bounds checks have no compiled counterpart
+            if sti != stj or (sti != 0 and [list(d) for d in outi] != [list(d) for d in outj]):
+                viol.append({"kind": "mode", "alg": alg, "params": ps, "box": b,
+                             "detail": f"one call differs between modes: interpreted {sti} {outi} vs compiled {stj} {outj}"})
     report.cov["traces_validated_against_impl"] = 2 * len(base)
     report.cov["rule"] = ("generated solve / partial-enumeration / optimisation cases run (a) interpreted (NUMBA_DISABLE_JIT=1), (b) compiled, "
                           "(c) in both modes again inside one long-lived process in shuffled order, each case possibly twice, interleaved with "
